@@ -16,10 +16,22 @@ Multi == {[pflags |-> {}, subs |-> <<<<f>>, <<g>>>>, op |-> o, form |-> OKForm(o
            f \in SmallFS, g \in SmallFS, o \in {"sign", "encrypt"}, en \in BOOLEAN}
          \cup {[pflags |-> {}, subs |-> <<<<f>>, <<g>>, <<h>>>>, op |-> o, form |-> OKForm(o), enforce |-> en, hasid |-> TRUE] :
            f \in {{}, {"S"}, {"EC"}}, g \in {{}, {"S"}, {"EC"}}, h \in {{}, {"S"}, {"EC"}}, o \in {"sign", "encrypt"}, en \in BOOLEAN}
-Init == sc \in Base \cup FormSet \cup Rebind \cup Multi
+\* decryption of a message addressed to each of 2-3 subkeys in turn (the harness addresses every component it can)
+MultiDec == {[pflags |-> {}, subs |-> <<<<f>>, <<g>>>>, op |-> "decrypt", form |-> fo, enforce |-> en, hasid |-> TRUE] :
+           f \in {{}, {"EC"}, {"ES"}, {"S"}}, g \in {{}, {"EC"}, {"S"}}, fo \in {"private-unprotected", "private-unlocked"}, en \in BOOLEAN}
+         \cup {[pflags |-> {"EC"}, subs |-> <<<<f>>, <<g>>, <<h>>>>, op |-> "decrypt", form |-> "private-unprotected", enforce |-> TRUE, hasid |-> TRUE] :
+           f \in {{}, {"EC"}}, g \in {{}, {"EC"}}, h \in {{}, {"EC"}}}
+         \cup {[pflags |-> {}, subs |-> <<<<f, g>>>>, op |-> "decrypt", form |-> "private-unprotected", enforce |-> TRUE, hasid |-> TRUE] :
+           f \in {{"EC"}, {"S"}}, g \in {{"EC"}, {"S"}, {}}}
+\* two identities with different capabilities; pflags are those of the CHOSEN identity, other those of the other one
+Ident == {[pflags |-> p, subs |-> s, op |-> o, form |-> OKForm(o), enforce |-> TRUE, hasid |-> TRUE, other |-> q, mode |-> m] :
+           p \in {{}, {"S"}, {"EC"}, {"S", "EC"}}, q \in {{}, {"S"}, {"EC"}, {"S", "EC"}}, s \in {<<>>, <<<<{"S"}>>>>, <<<<{"EC"}>>>>},
+           o \in {"sign", "encrypt"}, m \in {"default", "named-default", "named-other"}}
+Init == sc \in Base \cup FormSet \cup Rebind \cup Multi \cup MultiDec \cup Ident
 Next == UNCHANGED sc
 Spec == Init /\ [][Next]_sc
 Realisable == sc.hasid \/ sc.subs = <<>>          \* a key without an identity cannot get subkeys
-Emit == Realisable => PrintT(<<"SCN", sc, ImplOutcome(sc, TRUE), MustRefuse(sc)>>)
-Sound == Allowed(sc, ImplOutcome(sc, TRUE))
+Core == [f \in {"pflags", "subs", "op", "form", "enforce", "hasid"} |-> sc[f]]
+Emit == Realisable => PrintT(<<"SCN", sc, ImplOutcome(Core, TRUE), MustRefuse(Core)>>)
+Sound == Allowed(Core, ImplOutcome(Core, TRUE))
 ====
